@@ -213,8 +213,9 @@ _reg("C10", c10.run, module="NirVerif.Properties.C10Consistent",
      level_note="Lean kernel; hand-written model of _forward_type_inference (active definition); object identity and "
                 "the real loop's termination are exhibited by the correspondence run (watchdog), not by the theorem.")
 _reg("C11", c11.run,
-     theorems=["NirVerif.C11.names_injective", "NirVerif.C11.names_distinct", "NirVerif.C11.names_scheme", "NirVerif.C11.shape"],
-     translator=("T1", "T2"),
+     theorems=["NirVerif.C11.name_generated", "NirVerif.C11.names_injective", "NirVerif.C11.names_distinct",
+               "NirVerif.C11.names_scheme", "NirVerif.C11.shape"],
+     translator=("T1", "T2", "T8"),
      rule="Sequences of 1-8 (every 7th: 10-40) leaf primitives with repetition-heavy class choices favouring the "
           "i/if/li/lif prefix family, optional leading Input / trailing Output, all three calling conventions; oracle "
           "recomputes the expected names with an independent counter and checks identity, order, edges and end-point types.",
